@@ -37,6 +37,9 @@ def adapt(s):
     if not isinstance(s, dict):
         return s
     if "$ref" in s:
+        # siblings of $ref are ignored, except nullable: true ("T or null")
+        if s.get("nullable") is True:
+            return {"anyOf": [{"type": "null"}, {"$ref": s["$ref"]}]}
         return {"$ref": s["$ref"]}
     out = {}
     for k, v in s.items():
